@@ -96,8 +96,20 @@ Theorem open_empty_at_end_dag : forall g sched out dropped st,
   run g sched = Ok (Done out dropped st) ->
   all_finished g st = true ->
   s_open (rs_store st) = [out] /\ dropped = [].
-Proof. intros g sched out dropped st Hd Hn He. exact (open_empty_at_end_dag_l g Hd Hn He sched out dropped st). Qed.
+Proof. exact open_empty_at_end_dag_s. Qed.
 Print Assumptions open_empty_at_end_dag.
+
+(* The same without any hypothesis on the final state, for the graphs in which every node reaches
+   END along control edges / branches ([all_reach], decidable; acyclic graphs in which every node
+   has a control successor, e.g. every graph of the generator): whenever the run ends Done, every
+   node ran or was skipped, nothing else was scheduled with END and the only live handle is the
+   output. *)
+Theorem open_empty_at_end_dag_reach : forall g sched out dropped st,
+  g_dag g = true -> NoDup (all_keys g) -> ~ In kEND (all_keys g) -> covered g = true -> all_reach g = true ->
+  run g sched = Ok (Done out dropped st) ->
+  all_finished g st = true /\ s_open (rs_store st) = [out] /\ dropped = [].
+Proof. exact open_empty_at_end_dag_reach_s. Qed.
+Print Assumptions open_empty_at_end_dag_reach.
 
 (* open_empty_at_end, any-predecessor mode (Pregel): if END is reached with no other node
    scheduled, the only live handle is the output. *)
@@ -105,8 +117,43 @@ Theorem open_empty_at_end_pregel : forall g sched out st,
   g_dag g = false -> NoDup (all_keys g) -> ~ In kEND (all_keys g) ->
   run g sched = Ok (Done out [] st) ->
   s_open (rs_store st) = [out].
-Proof. intros g sched out st Hp Hn He. exact (open_empty_at_end_pregel_l g Hp Hn He sched out st). Qed.
+Proof. exact open_empty_at_end_pregel_s. Qed.
 Print Assumptions open_empty_at_end_pregel.
+
+(* Interrupt exits.  At every pass of the run loop, in both modes, the live handles are exactly the
+   streams stored in the channels and the inputs of the tasks about to start; an interrupt exit hands
+   exactly these to checkPointer.convertCheckPoint (cp.Channels, cp.Inputs), which concatenates —
+   drains and closes — every one of them: nothing stays live when the run returns the interrupt. *)
+Theorem interrupt_exit_drains : forall g sched st b ready st4,
+  NoDup (all_keys g) -> ~ In kEND (all_keys g) -> (g_dag g = true -> covered g = true) ->
+  run g sched = Ok (Running st) -> calc_next g b st = Ok (ready, st4) ->
+  exists s, checkpoint_drain g ready st4 = Ok s /\ s_open s = [].
+Proof. exact interrupt_exit_drains_l. Qed.
+Print Assumptions interrupt_exit_drains.
+
+(* "every stream the framework created internally is drained or closed".  The store records how
+   every handle was created (a producer's / node's fresh stream, a child of a Copy, the result of a
+   merge) and how it was retired (consumed; copied: it lives on in its children; merged: it lives on
+   in the merged stream).  [released]: consumed by a consumer, or all its copies are released, or the
+   stream it was merged into is released.  When a run is Done (all-predecessor mode: every node ran or
+   was skipped; any-predecessor mode: nothing else scheduled with END) and the caller has drained or
+   closed the output, EVERY stream that existed during the run is released: the run's input, every
+   node's output, every fan-out copy, every merged and every empty stream. *)
+Theorem every_stream_released : forall g sched out dropped st s',
+  NoDup (all_keys g) -> ~ In kEND (all_keys g) ->
+  (g_dag g = true -> covered g = true /\ all_finished g st = true) ->
+  (g_dag g = false -> dropped = []) ->
+  run g sched = Ok (Done out dropped st) ->
+  consume out (rs_store st) = Ok s' ->
+  s_open s' = [] /\ forall h, created (s_hist s') h -> released (s_hist s') h.
+Proof. exact every_stream_released_l. Qed.
+Print Assumptions every_stream_released.
+
+Example every_stream_released_nonvacuous :
+  exists out st s', run ex_dag ex_dag_sched = Ok (Done out [] st) /\ consume out (rs_store st) = Ok s' /\
+    s_open s' = [] /\
+    In (HCopy 1 [2; 3; 4]) (s_hist s') /\ In (HMerge [6; 8; 7] 9) (s_hist s') /\ In (HConsume 9) (s_hist s').
+Proof. exact ex_released_ok. Qed.
 
 (* ... and once the caller has drained or closed the output, no handle is live *)
 Theorem open_empty_after_caller : forall st out,
@@ -121,7 +168,7 @@ Theorem dag_node_runs_at_most_once : forall g sched st,
   g_dag g = true -> NoDup (all_keys g) -> ~ In kEND (all_keys g) -> covered g = true ->
   run g sched = Ok (Running st) ->
   NoDup (rs_pending st ++ rs_resolved st).
-Proof. intros g sched st Hd Hn He. exact (dag_once_l g Hd Hn He sched st). Qed.
+Proof. exact dag_once_s. Qed.
 Print Assumptions dag_node_runs_at_most_once.
 
 (* F-C19b and 760a968 at run level.  Model/StreamRunV0.v is the same run loop with the two channel
@@ -150,7 +197,7 @@ Print Assumptions open_empty_at_end_v0_skip_refuted.
 (* non-vacuity of the run theorems: a diamond with a branch (all-predecessor), a Workflow shape
    whose branch carries no data and whose unselected end holds a data-only input, a Pregel loop *)
 Example run_dag_nonvacuous :
-  g_dag ex_dag = true /\ NoDup (all_keys ex_dag) /\ ~ In kEND (all_keys ex_dag) /\ covered ex_dag = true /\
+  g_dag ex_dag = true /\ NoDup (all_keys ex_dag) /\ ~ In kEND (all_keys ex_dag) /\ covered ex_dag = true /\ all_reach ex_dag = true /\
   exists out st, run ex_dag ex_dag_sched = Ok (Done out [] st) /\ all_finished ex_dag st = true /\
                  s_open (rs_store st) = [out] /\ s_log (rs_store st) = [3%Z; 2%Z] /\ l_merges (rs_log st) = [3%nat].
 Proof. exact ex_dag_ok. Qed.
@@ -214,7 +261,8 @@ Example nodata_branch_accounts :
 Proof. vm_compute. reflexivity. Qed.
 
 Example callback_copies_example :
-  on_with_stream_handle 2 0 (init_store 0) = (3, [1; 2], {| s_next := 4; s_open := [1; 2; 3]; s_log := [3%Z] |}) /\
+  on_with_stream_handle 2 0 (init_store 0) =
+    (3, [1; 2], {| s_next := 4; s_open := [1; 2; 3]; s_log := [3%Z]; s_hist := [HCopy 0 [1; 2; 3]; HFresh 0] |}) /\
   callback_copies 2 3 = [3%Z; 3%Z; 3%Z] /\ callback_copies 0 3 = [].
 Proof. vm_compute. repeat split. Qed.
 
